@@ -61,6 +61,9 @@ Proof.
     assert (Hdu : dtype_eqb (a_dt (rows_arr (row :: rows))) DU64 = true) by reflexivity.
     assert (Hl0 : len0 (rows_arr (row :: rows)) = Some (length (row :: rows))) by reflexivity.
     rewrite Hnd. cbn [guard rbind]. rewrite (Hed _ eq_refl). cbn [rbind]. rewrite Hdu. cbn [guard rbind].
+    assert (Hn2 : Nat.eqb (ndim (rows_arr (row :: rows))) 2 = true) by reflexivity.
+    assert (Hn1 : Nat.eqb (ndim (data_arr (e0 :: r) data)) 1 = true) by reflexivity.
+    rewrite Hn2, Hn1. cbn [guard rbind].
     cbn [data_arr a_dt ser_dtype]. rewrite Hd, dtype_eqb_refl. cbn [guard rbind].
     rewrite Hl0, Hcnt, Hlen. cbn [option_eqb]. rewrite Nat.eqb_refl. cbn [guard rbind]. exact Htail.
 Qed.
